@@ -375,6 +375,7 @@ func (H) Gen(prop string, seed uint64, tier string) *hx.Case {
 		violP, viols = 0.12, []string{"bad-sig", "spent-input", "immature", "overspend", "double-in-block", "later-output", "missing-input", "own-coinbase", "bad-sig", "spent-input"}
 	}
 	best := tip
+	hugeDone := false
 	var retry []int
 	var made []*ledger.Node
 	now := cfg.Now0
@@ -417,6 +418,9 @@ func (H) Gen(prop string, seed uint64, tier string) *hx.Case {
 		o := ledger.BlockOpts{NTx: r.Pick(15, 25, 25, 15, 10, 5, 5), InBlockChain: r.Chance(0.4)}
 		if fat && (prop != "C07" || r.Chance(0.6)) {
 			o.Fat = r.Range(6000, 9500) // (C07: big and small blocks mixed, so that a re-fed block can cover the bytes of several lost ones)
+		}
+		if prop == "C17" && !hugeDone && r.Chance(0.012) {
+			o.HugeFanout, hugeDone = true, true // (once per history at most: 65537+ outputs in one transaction)
 		}
 		if fanout {
 			// blocks that fan out: several transaction packs, more than 32 spent and created records, in-block chains
